@@ -305,6 +305,24 @@ pub(crate) trait LayoutExt: Layout {
             )
         })
     }
+
+    /// Return the minimum length required for the element data buffer used
+    /// with this layout, or `None` if the length overflows.
+    ///
+    /// This returns the same value as [`min_data_len`](Layout::min_data_len)
+    /// if there is no overflow. It should be used when validating a layout
+    /// that comes from outside the crate, before combining it with storage.
+    fn checked_min_data_len(&self) -> Option<usize> {
+        if self.shape().iter().any(|d| d == 0) {
+            return Some(0);
+        }
+        let mut max_offset: usize = 0;
+        for (size, stride) in self.shape().iter().zip(self.strides().iter()) {
+            let dim_max_offset = (size - 1).checked_mul(stride)?;
+            max_offset = max_offset.checked_add(dim_max_offset)?;
+        }
+        max_offset.checked_add(1)
+    }
 }
 
 impl<L: Layout> LayoutExt for L {}
